@@ -67,7 +67,7 @@ func (loader) Units(tier string) int {
 func (loader) Describe() core.EngineInfo {
 	return core.EngineInfo{
 		Level: "exploration",
-		Rule: "a case is 1-3 Loads (or Evals of import lines) on one VM of a generated import graph of up to 12 script packages (random fan-in/out, 1-4 files with random names, full-path / vendor / shortened placement, native and nowhere imports, _test.go and false-constraint decoys (release, toolchain, OS and near-miss tags), imports of directories that hold only _test.go files, optional cycle or conflicting package clause) " +
+		Rule: "a case is 1-3 Loads (or Evals of import lines) on one VM of a generated import graph of up to 12 script packages (random fan-in/out, 1-4 files with random names, full-path / vendor / shortened placement, native and nowhere imports, _test.go and false-constraint decoys (release, toolchain, OS and near-miss tags), imports of directories that hold only _test.go files, import paths as raw or escaped string literals, package-level block scopes, forward calls in initialisers, init functions written first, methods named init, optional cycle or conflicting package clause) " +
 			"whose top-level initialisers and init functions report markers through a native; the editor may replace whole files between and during loads, disk faults may fire, a reload may be nested inside a running initialiser. " +
 			"Judged per Load against the graph the disk actually served. In the thorough tier all digraphs on <= 3 nodes (with self loops) and on 4 nodes (without) are enumerated besides. " +
 			"non-trivial = more than one package reachable, or a fault/edit fired, or a nested load; distinct = (reachable packages, edges, layout kinds, decoys, outcome, faults fired, nesting)",
